@@ -78,69 +78,7 @@ func runC19(c *Ctx) {
 		c.verdict(okAsc, c.nm(fn)+" | events emitted in increasing height order (forward range)", c.P.Pos(fn.Pos()), "range loop", "connected events are no longer emitted by a forward range over the block headers")
 	})
 
-	c.rule("C19.O2", "rollBackToHeight: each removed block is announced as disconnected after BlockHeaders.RollbackLastBlock succeeded, carrying the header fetched for the old tip before the rollback, its height, and the header fetched for the new tip", func() {
-		fn := c.fn(fnRollBack)
-		demits := c.emitSites(fn, "onBlockDisconnected", "NewBlockDisconnected")
-		disc := emitIns(demits)
-		rb := find(fn, callTo(bhs("RollbackLastBlock")))
-		c.guarded(fn, errNil("BlockHeaders.RollbackLastBlock", rb, 1), 1, "onBlockDisconnected", disc, 1, gDominate)
-		c.mustFollowIter(fn, "block header rolled back", c.successEdges(errNil("BlockHeaders.RollbackLastBlock", rb, 1)), oneOf(disc), "onBlockDisconnected", func() ir.Cut {
-			// the only exit without an event: failing to read the new tip header
-			cut := ir.Cut{}
-			for _, in := range find(fn, callTo(bhs("FetchHeader"))) {
-				for _, r := range ir.Result(in.(ssa.Value), 2) {
-					for _, br := range ir.NilBranches(r) {
-						cut[br.Other()] = true
-					}
-				}
-			}
-			return cut
-		}(), 1)
-		// no block header leaves the store without an event: in the root package
-		// the only removal of block headers is that one RollbackLastBlock call,
-		// inside the per-block loop (a bulk RollbackBlockHeaders would drop
-		// blocks silently); the importer's compensating rollback touches headers
-		// that were never announced
-		c.whoMay("removal of block headers from the store (RollbackLastBlock / RollbackBlockHeaders)", callTo(bhs("RollbackLastBlock"), bhs("RollbackBlockHeaders")), []string{fnRollBack, "(*chainimport.headersImport).writeHeadersToTargetStores", "(*headerfs.blockHeaderStore).RollbackLastBlock"}, 2)
-		okOne := len(rb) == 1 && ir.LoopHeaderOf(rb[0].Block()) != nil && len(find(fn, callTo(bhs("RollbackBlockHeaders")))) == 0
-		c.verdict(okOne, c.nm(fn)+" | block headers are removed one per loop iteration", c.P.Pos(fn.Pos()), "a single RollbackLastBlock inside the loop", fmt.Sprintf("rollBackToHeight removes block headers at %d RollbackLastBlock site(s) and %d bulk RollbackBlockHeaders site(s): headers removed outside the per-block loop get no Disconnected event", len(rb), len(find(fn, callTo(bhs("RollbackBlockHeaders"))))))
-		stampHash := c.field("headerfs", "BlockStamp", "Hash")
-		prevBlock := c.field(pWire, "BlockHeader", "PrevBlock")
-		fetches := find(fn, callTo(bhs("FetchHeader")))
-		var oldFetch, newFetch ssa.Value
-		for _, f := range fetches {
-			a := argsOf(f)[0]
-			switch {
-			case ir.DerivesFrom(a, func(x ssa.Value) bool { return fieldAddrOf(stampHash)(x) }):
-				oldFetch = f.(ssa.Value)
-			case ir.DerivesFrom(a, func(x ssa.Value) bool { return fieldAddrOf(prevBlock)(x) }):
-				newFetch = f.(ssa.Value)
-			}
-		}
-		okv := len(disc) == 1 && oldFetch != nil && newFetch != nil
-		if okv {
-			a := demits[0].args
-			from := func(v, call ssa.Value, idx int) bool {
-				return ir.DerivesFrom(v, func(x ssa.Value) bool {
-					e, ok := x.(*ssa.Extract)
-					return ok && e.Tuple == call && e.Index == idx
-				})
-			}
-			okv = from(a[0], oldFetch, 0) && from(a[1], oldFetch, 1) && from(a[2], newFetch, 0)
-			// old header fetched before the rollback
-			if okv {
-				before := false
-				ir.WalkAfter(oldFetch.(ssa.Instruction), ir.BackEdges(fn), func(in ssa.Instruction) bool {
-					if in == rb[0] {
-						before = true
-					}
-					return true
-				})
-				okv = before
-			}
-		}
-		c.verdict(okv, c.nm(fn)+" | onBlockDisconnected(header@bs.Hash fetched before rollback, its height, header@newTip)", c.P.Pos(fn.Pos()), "arguments have the tabled provenance", "the disconnected event does not carry (old tip header, its height, new tip header) as fetched around the rollback", c.ats(disc)...)
-	})
+	c.rule("C19.O2", disconnectPayloadDoc, func() { c.disconnectPayload() })
 
 	c.rule("C19.O3", "mirror maintenance: filterHeaderTip/filterHeaderTipHash mirror the filter-header store's tip and bound the backlog; every blockManager function that mutates cfg.RegFilterHeaders (WriteHeaders, RollbackLastBlock) stores the new tip under newFilterHeadersMtx on its success path", func() {
 		mut := callTo(fhs("WriteHeaders"), fhs("RollbackLastBlock"))
@@ -191,6 +129,11 @@ func runC19(c *Ctx) {
 				}
 			}
 			c.verdict(okA && okB && okL, construct, c.P.Pos(fn.Pos()), "both mirror fields stored under the mutex after the mutation", "a success path of the store mutation skips the update of filterHeaderTip/filterHeaderTipHash, or the update is not under newFilterHeadersMtx", c.ats(sites)...)
+			// ... and only then: the mirror moves with the filter store, not
+			// with the block headers (blocks above the filter tip have no
+			// committed filter header; a mirror raised to them makes the
+			// backlog offer blocks that were never announced)
+			c.guarded(fn, g, 1, "filterHeaderTip = .. (the mirror moves)", find(fn, st), 1, gDominate)
 		}
 		if n < 2 {
 			c.undecided("functions mutating RegFilterHeaders | floor", "", fmt.Sprintf("found %d, need 2", n))
@@ -492,4 +435,72 @@ func (c *Ctx) tipBeforeEvents() {
 	fn := c.fn(fnWriteCFH)
 	conn := emitIns(c.emitSites(fn, "onBlockConnected", "NewBlockConnected"))
 	c.mustPrecede(fn, storeToField(c.field("neutrino", "blockManager", "filterHeaderTip")), "filterHeaderTip = lastHeight", oneOf(conn), "onBlockConnected", 1)
+}
+
+const disconnectPayloadDoc = "rollBackToHeight: each removed block is announced as disconnected after BlockHeaders.RollbackLastBlock succeeded, carrying the header fetched for the old tip before the rollback, its height, and the header fetched for the new tip"
+
+// disconnectPayload: see disconnectPayloadDoc.
+func (c *Ctx) disconnectPayload() {
+	bhs := func(m string) *types.Func { return c.method("headerfs", "BlockHeaderStore", m) }
+		fn := c.fn(fnRollBack)
+		demits := c.emitSites(fn, "onBlockDisconnected", "NewBlockDisconnected")
+		disc := emitIns(demits)
+		rb := find(fn, callTo(bhs("RollbackLastBlock")))
+		c.guarded(fn, errNil("BlockHeaders.RollbackLastBlock", rb, 1), 1, "onBlockDisconnected", disc, 1, gDominate)
+		c.mustFollowIter(fn, "block header rolled back", c.successEdges(errNil("BlockHeaders.RollbackLastBlock", rb, 1)), oneOf(disc), "onBlockDisconnected", func() ir.Cut {
+			// the only exit without an event: failing to read the new tip header
+			cut := ir.Cut{}
+			for _, in := range find(fn, callTo(bhs("FetchHeader"))) {
+				for _, r := range ir.Result(in.(ssa.Value), 2) {
+					for _, br := range ir.NilBranches(r) {
+						cut[br.Other()] = true
+					}
+				}
+			}
+			return cut
+		}(), 1)
+		// no block header leaves the store without an event: in the root package
+		// the only removal of block headers is that one RollbackLastBlock call,
+		// inside the per-block loop (a bulk RollbackBlockHeaders would drop
+		// blocks silently); the importer's compensating rollback touches headers
+		// that were never announced
+		c.whoMay("removal of block headers from the store (RollbackLastBlock / RollbackBlockHeaders)", callTo(bhs("RollbackLastBlock"), bhs("RollbackBlockHeaders")), []string{fnRollBack, "(*chainimport.headersImport).writeHeadersToTargetStores", "(*headerfs.blockHeaderStore).RollbackLastBlock"}, 2)
+		okOne := len(rb) == 1 && ir.LoopHeaderOf(rb[0].Block()) != nil && len(find(fn, callTo(bhs("RollbackBlockHeaders")))) == 0
+		c.verdict(okOne, c.nm(fn)+" | block headers are removed one per loop iteration", c.P.Pos(fn.Pos()), "a single RollbackLastBlock inside the loop", fmt.Sprintf("rollBackToHeight removes block headers at %d RollbackLastBlock site(s) and %d bulk RollbackBlockHeaders site(s): headers removed outside the per-block loop get no Disconnected event", len(rb), len(find(fn, callTo(bhs("RollbackBlockHeaders"))))))
+		stampHash := c.field("headerfs", "BlockStamp", "Hash")
+		prevBlock := c.field(pWire, "BlockHeader", "PrevBlock")
+		fetches := find(fn, callTo(bhs("FetchHeader")))
+		var oldFetch, newFetch ssa.Value
+		for _, f := range fetches {
+			a := argsOf(f)[0]
+			switch {
+			case ir.DerivesFrom(a, func(x ssa.Value) bool { return fieldAddrOf(stampHash)(x) }):
+				oldFetch = f.(ssa.Value)
+			case ir.DerivesFrom(a, func(x ssa.Value) bool { return fieldAddrOf(prevBlock)(x) }):
+				newFetch = f.(ssa.Value)
+			}
+		}
+		okv := len(disc) == 1 && oldFetch != nil && newFetch != nil
+		if okv {
+			a := demits[0].args
+			from := func(v, call ssa.Value, idx int) bool {
+				return ir.DerivesFrom(v, func(x ssa.Value) bool {
+					e, ok := x.(*ssa.Extract)
+					return ok && e.Tuple == call && e.Index == idx
+				})
+			}
+			okv = from(a[0], oldFetch, 0) && from(a[1], oldFetch, 1) && from(a[2], newFetch, 0)
+			// old header fetched before the rollback
+			if okv {
+				before := false
+				ir.WalkAfter(oldFetch.(ssa.Instruction), ir.BackEdges(fn), func(in ssa.Instruction) bool {
+					if in == rb[0] {
+						before = true
+					}
+					return true
+				})
+				okv = before
+			}
+		}
+		c.verdict(okv, c.nm(fn)+" | onBlockDisconnected(header@bs.Hash fetched before rollback, its height, header@newTip)", c.P.Pos(fn.Pos()), "arguments have the tabled provenance", "the disconnected event does not carry (old tip header, its height, new tip header) as fetched around the rollback", c.ats(disc)...)
 }
